@@ -17,14 +17,14 @@ RULE = ("case = (cyclic block graph built from templates, inputs per cycle): 'fa
         "sweep), and rings containing an update_once block; run under DefaultPassGroup and Mamba2020 "
         "(cyclic-capable) and Simple/HeuTopo/Unroll (must reject). Obligations: on return every non-ff block re-run "
         "alone changes nothing; false loops equal the reference fixed point; must-raise cases raise UpblkCyclicError; "
-        "a 20 s SIGALRM watchdog turns a hang into a violation. non-trivial = SCC of >=2 blocks whose carrying signals "
+        "a watchdog of 20 s CPU time (ITIMER_PROF) turns a hang into a violation. non-trivial = SCC of >=2 blocks whose carrying signals "
         "are slices/fields/nets, or a divergent ring whose oscillating part has a stable sibling; distinct by design")
 ASSUMPTIONS = [
   "ring classification is by exhaustive evaluation of the composed loop map on all loop values (<= 8) for the inputs of "
   "each cycle, using the reference evaluator",
   "'must not raise' is asserted only for false loops: a stage chain of <=7 stages plus its net blocks settles within "
   "<=~15 sweeps in any sweep order, far below pymtl3's 100-iteration bound; for true rings a report is always accepted",
-  "wall-clock is used only as a 20 s hang watchdog (evaluation normally takes milliseconds)",
+  "the hang watchdog counts 20 s of CPU time of the checking process (evaluation normally takes milliseconds); wall-clock time is not used",
 ]
 QUICK_S = 80
 THOROUGH_S = 1200
@@ -243,8 +243,9 @@ def run_pass(design, meta, seq, which, rseed, classes_per_cycle, ref_snaps):
   from pymtl3.dsl.errors import UpblkCyclicError
   s = rtl_sim.Sim(design)
   stage = "elaborate"
-  old = signal.signal(signal.SIGALRM, _alarm)
-  signal.alarm(20)
+  # the watchdog counts CPU time of this process (ITIMER_PROF), not wall-clock time: a loaded machine cannot trip it
+  old = signal.signal(signal.SIGPROF, _alarm)
+  signal.setitimer(signal.ITIMER_PROF, 20)
   try:
     s.elaborate()
     stage = "apply"
@@ -286,7 +287,7 @@ def run_pass(design, meta, seq, which, rseed, classes_per_cycle, ref_snaps):
           return (f"{which}:false:value_mismatch", f"cycle {t}: {[(k, got[k], exp[k]) for k in dd[:4]]}")
     return None
   except Hang:
-    return (f"{which}:{meta['family']}:hang", f"no result within 20 s at stage {stage}")
+    return (f"{which}:{meta['family']}:hang", f"no result within 20 s of CPU time at stage {stage}")
   except Exception as ex:
     import traceback
     tb = traceback.extract_tb(ex.__traceback__)
@@ -294,8 +295,8 @@ def run_pass(design, meta, seq, which, rseed, classes_per_cycle, ref_snaps):
     if not inner: raise
     return (f"{which}:{meta['family']}:{stage}:exception:{type(ex).__name__}@{inner[-1].name}", f"{ex}"[:300])
   finally:
-    signal.alarm(0)
-    signal.signal(signal.SIGALRM, old)
+    signal.setitimer(signal.ITIMER_PROF, 0)
+    signal.signal(signal.SIGPROF, old)
     s.close()
 
 
